@@ -456,6 +456,33 @@ pub fn run(run: &Run) {
         run.distinct(hash_str(&text));
     });
 
+    // ---- matrix 3b: three operands (same operator chains and mixed precedence)
+    let chains: [(&str, &str); 5] = [("and", "and"), ("or", "or"), ("xor", "xor"), ("and", "or"), ("or", "and")];
+    let n3b = operands.len() * operands.len() * operands.len() * chains.len();
+    run.exhaustive("operand-triples", true);
+    run.parallel("operand-triples", n3b as u64, |i, l| {
+        let mut x = i as usize;
+        let ch = chains[x % chains.len()];
+        x /= chains.len();
+        let c = &operands[x % operands.len()];
+        x /= operands.len();
+        let b = &operands[x % operands.len()];
+        x /= operands.len();
+        let a = &operands[x];
+        let kind = match (a.1, b.1, c.1) {
+            (Some(x), Some(y), Some(z)) if x == y && y == z => Some(x),
+            _ => None,
+        };
+        let text = format!("{} {} {} {} {}", a.0, ch.0, b.0, ch.1, c.0);
+        let mut r = Rng::derive(seed, "c04-m3b", i);
+        let cell = format!("operand-triples/{:?}-{:?}-{:?}", a.1, b.1, c.1);
+        check_decision(run, l, "operand-triples", i, &eng, &text, kind == Some(false),
+            "every operand of a logical chain must be a plain boolean (top level)", &format!("{}/top", cell), None, &mut r);
+        check_decision(run, l, "operand-triples", i, &eng, &format!("all(({}))", text), kind == Some(true),
+            "every operand of a logical chain must be a boolean array (inside a quantifier)", &format!("{}/all", cell), None, &mut r);
+        run.distinct(hash_str(&text));
+    });
+
     // ---- matrix 4: quantifier argument kinds
     let qargs: Vec<(&str, bool, &str)> = vec![
         ("l_tru_m", true, "boolean array field"),
@@ -856,6 +883,65 @@ pub fn ill_type(env: &Env, e: &Expr, r: &mut Rng) -> Option<(Expr, &'static str)
                 map_nth(x, n, f).map(|m| Expr::Quant(*q, QArg::Logical(Box::new(m))))
             }
             Expr::Quant(_, QArg::Path(_)) => None,
+        }
+    }
+    // append / insert an operand of the other kind into an existing chain
+    fn chain_sites(e: &Expr) -> usize {
+        match e {
+            Expr::Cmp(..) => 0,
+            Expr::Not(x) | Expr::Paren(x) => chain_sites(x),
+            Expr::Comb(_, it) => 1 + it.iter().map(chain_sites).sum::<usize>(),
+            Expr::Quant(_, QArg::Logical(x)) => chain_sites(x),
+            Expr::Quant(_, QArg::Path(_)) => 0,
+        }
+    }
+    fn extend_nth(env: &Env, e: &Expr, n: &mut usize, r: &mut Rng) -> Option<Expr> {
+        match e {
+            Expr::Cmp(..) => None,
+            Expr::Not(x) => extend_nth(env, x, n, r).map(Expr::not),
+            Expr::Paren(x) => extend_nth(env, x, n, r).map(Expr::paren),
+            Expr::Comb(op, items) => {
+                if *n == 0 {
+                    *n = usize::MAX;
+                    let is_arr = crate::refsem::type_expr(env, &items[0]).ok()? == crate::refsem::ETy::BoolArr;
+                    let other = if is_arr {
+                        Expr::Cmp(Path::field(env.field("tru_m")?), CmpOp::IsTrue)
+                    } else {
+                        Expr::Cmp(
+                            Path { base: Base::Field(env.field("l_num_m")?), idx: vec![Idx::Each] },
+                            CmpOp::Ord(OrdOp::Eq, Lit::Int(1)),
+                        )
+                    };
+                    let mut items = items.clone();
+                    // never in the first position: a later operand of the chain
+                    let pos = 1 + r.below(items.len());
+                    items.insert(pos, other);
+                    return Some(Expr::Comb(*op, items));
+                }
+                *n -= 1;
+                for (k, it) in items.iter().enumerate() {
+                    if let Some(m) = extend_nth(env, it, n, r) {
+                        let mut items = items.clone();
+                        items[k] = m;
+                        return Some(Expr::Comb(*op, items));
+                    }
+                    if *n == usize::MAX {
+                        return None;
+                    }
+                }
+                None
+            }
+            Expr::Quant(q, QArg::Logical(x)) => {
+                extend_nth(env, x, n, r).map(|m| Expr::Quant(*q, QArg::Logical(Box::new(m))))
+            }
+            Expr::Quant(_, QArg::Path(_)) => None,
+        }
+    }
+    let nchains = chain_sites(e);
+    if nchains > 0 && r.chance(1, 4) {
+        let mut n = r.below(nchains);
+        if let Some(m) = extend_nth(env, e, &mut n, r) {
+            return Some((m.normalize(), "mismatching-operand-late-in-chain"));
         }
     }
     let choice = r.below(9);
